@@ -16,6 +16,7 @@ PRELUDE = r'''
 use ::core::marker::PhantomData;
 pub trait Tr { type A; }
 pub trait Tr2 {}
+pub trait Tr3<X: ?Sized> {}
 impl Tr for u8 { type A = u8; }
 impl Tr2 for u8 {}
 /// carrier: uses every declared parameter (through X and N) and implements every trait any derive needs, for all X, N
@@ -569,6 +570,12 @@ def part_accepted_compiles(chk, thorough):
         # (the same with the Target spelled as the projection the derive uses: no known finding)
         ("DerefMut", "#[deref_mut(forward)] struct S<T>(Box<T>);", "impl<T> ::core::ops::Deref for S<T> { type Target = <Box<T> as ::core::ops::Deref>::Target; fn deref(&self) -> &Self::Target { &self.0 } }"),
         ("IndexMut", "struct S<T>(Vec<T>);", "impl<T, I> ::core::ops::Index<I> for S<T> where Vec<T>: ::core::ops::Index<I> { type Output = <Vec<T> as ::core::ops::Index<I>>::Output; fn index(&self, i: I) -> &Self::Output { &self.0[i] } }"),
+        # `Self` in the type's own where-clause / parameter bounds (the predicates are copied onto impls whose Self is another type)
+        ("Into", "struct S(H<(), 1>, H<(), 2>) where Self: Tr2;", "impl Tr2 for S {}"),
+        ("Into", "#[into(owned, ref, ref_mut)] struct S<T: Tr3<Self>>(Vec<T>, u8);", "impl<T> Tr3<S<T>> for T {} #[allow(dead_code)] fn _use(s: S<u8>) -> (Vec<u8>, u8) { s.into() }"),
+        ("TryInto", "#[try_into(owned, ref, ref_mut)] enum S where Self: Tr2 { A(H<(), 1>), B(H<(), 2>) }", "impl Tr2 for S {}"),
+        ("IntoIterator", "#[into_iterator(owned, ref, ref_mut)] struct S(Vec<u8>) where Self: Tr2;", "impl Tr2 for S {} #[allow(dead_code)] fn _use(mut s: S) { for _ in &s {} for _ in &mut s {} for _ in s {} }"),
+        ("From", "struct S(H<(), 1>) where Self: Tr2;", "impl Tr2 for S {}"),
         ("Sum", "struct S<T>(T);", "impl<T: ::core::ops::Add<Output = T>> ::core::ops::Add for S<T> { type Output = Self; fn add(self, o: Self) -> Self { S(self.0 + o.0) } }"),
     ]
     for d, it, companion, *kid in hand:
